@@ -143,6 +143,8 @@ def _e2e_configs(tier):
                 if existing == 'in_db_only': out.append(dict(key=key, existing=existing, via=via, caught=True, shape='flat'))
                 # the same keys, covered once more by indexes that a SUBCLASS declares (they are created after the single-column unique index)
                 if existing == 'in_db_only': out.append(dict(key=key, existing=existing, via=via, caught=False, shape='subclass indexes over the keys'))
+                # the first write of the session is a DELETE that the program flushes alone (obj.flush()): it belongs to the same transaction as what follows
+                if existing == 'in_db_only': out.append(dict(key=key, existing=existing, via=via, caught=False, shape='flat', first_write='a delete flushed by obj.flush()'))
     return out
 
 
@@ -172,7 +174,7 @@ def _e2e_case(cfg, values):
                 orm.composite_index(c, 'name'); orm.composite_key(c, 'marker'); orm.composite_index(c, 'a')
         db.generate_mapping(create_tables=True)
         with orm.db_session:
-            U(id=1, name='n1', a=1, b=1); U(id=2, name='n2', a=2, b=2)
+            U(id=1, name='n1', a=1, b=1); U(id=2, name='n2', a=2, b=2); U(id=5, name='n5', a=5, b=5)
         rows = lambda: sorted(db.provider.pool.con.execute('select id, name, a, b, marker from U').fetchall())
         st['before'] = rows()
         st['raised_at'] = None
@@ -183,6 +185,8 @@ def _e2e_case(cfg, values):
                 elif cfg['existing'] == 'created_in_session':
                     U(id=3, name='n3', a=3, b=3)
                     conflict = dict(pk=dict(id=3, name='zz', a=9, b=9), unique=dict(id=7, name='n3', a=9, b=9), composite=dict(id=7, name='zz', a=3, b=3))[cfg['key']]
+                if cfg.get('first_write'):
+                    d = U[5]; d.delete(); d.flush()                 # sent on its own, before anything else was written
                 U[2].marker = 42                                    # a harmless write of the same session
                 if cfg['caught']: orm.flush()                       # ... already flushed successfully when the conflict is found
                 try:
